@@ -17,86 +17,86 @@ PROPS = {
     "C06": {
         "tests": ["TestC06"],
         "design_ref": "DESIGN.md §3.6",
-        "level_text": "TODO",
-        "level_note": "TODO",
+        "level_text": 'Correspondence of the interleaving model (TTL cell semantics of WithTTL, UpdateTTL refresh in a fresh cell, detached background context) with the implementation: the wrapping backend records TTL(ctx) of every Write, builders record Err/Done/Deadline/Value of their context; predicate c06_get_ok on every trace; model-level lemmas in properties/C06.v.',
+        "level_note": "Trusted: as C01; interpretation O3 (no TTL cell in the caller's context: builder updates have nothing to update) and O6 (a SkipRead Get that finds the key locked accepts the owner's result).",
     },
     "C05": {
         "tests": ["TestC05"],
         "design_ref": "DESIGN.md §3.5",
-        "level_text": "TODO",
-        "level_note": "TODO",
+        "level_text": 'Correspondence of the interleaving model with the implementation on bursts under SyncRead and on failure windows at exact fake-clock offsets (0.5/0.94/1.06/2 x FailedUpdateTTL, contexts with TTLs, SkipRead, ExpireAll), with the decidable predicates C05_single_obs / C05_fail_obs evaluated on every implementation trace; model-level theorem: see properties/C05.v.',
+        "level_note": "Trusted: as C01; the failure cache's jitter is an oracle input validated against the C10 bound.",
     },
     "C04": {
         "tests": ["TestC04"],
         "design_ref": "DESIGN.md §3.4",
-        "level_text": "TODO",
-        "level_note": "TODO",
+        "level_text": 'Theorems C04_quiescent_unlocked, C04_no_deadlock, C04_step_decreases / C04_steps_bounded / C04_new_get_costs_30, C04_rebuild_possible (Coq, no axioms) over the interleaving model: at quiescence no key lock is registered and all are closed; an unfinished state always has an enabled step; each Get finishes within 30 own steps. Correspondence: steered runs with hostile callers (context cancel, key buffer overwrite), faults, VerifKeyLocks()=0, forced expiry and follow-up Gets; sequential Gets with fake-clock gaps around UpdateTTL / FailedUpdateTTL.',
+        "level_note": "Trusted: as C01; 'returns once its builders returned' is bounded own-steps + enabledness in the model, real-time scheduling is outside it.",
     },
     "C03": {
         "tests": ["TestC03"],
         "design_ref": "DESIGN.md §3.3",
-        "level_text": "TODO",
-        "level_note": "TODO",
+        "level_text": 'Theorem C03_table (Coq, no axioms, by computation over 20480 shapes with values, instants and durations symbolic): running the interleaving model for a lone Get yields exactly the README decision table, for both answers of the staleness test, both APIs, all option combinations, with/without logger and stats. The implementation is compared with the same table on the complete product (504 cells quick, 1008 thorough) and with the model step by step.',
+        "level_note": 'Trusted: as C01; the table is a transcription of README bullets 2-7 (DESIGN Appendix B).',
     },
     "C02": {
         "tests": ["TestC02"],
         "design_ref": "DESIGN.md §3.2",
-        "level_text": "TODO",
-        "level_note": "TODO",
+        "level_text": "Correspondence of the C01 interleaving model (which returns only provenanced values by construction of its steps) with the implementation under injected backend faults, plus the decidable provenance predicate C02_obs evaluated on every implementation trace; the provenance theorem over the model's ghost log is stated in DESIGN §3.2 (proof in progress: see properties/C02.v for what is proved).",
+        "level_note": "Trusted: as C01; unique token discipline of the harness (builder tokens, seeds, error numbers are distinct so 'belongs to another key' is decidable).",
     },
     "C01": {
         "tests": ["TestC01"],
         "design_ref": "DESIGN.md §3.1",
-        "level_text": "TODO",
-        "level_note": "TODO",
+        "level_text": 'Theorems C01_no_overlapping_builds / C01_log_intervals_disjoint / C01_owner_region_exclusive / C01_lock_invariant (Coq, no axioms): in a small-step interleaving model of Failover.Get and FailoverOf.Get (every shared access and every call-out is a step; backend, builder and clock are adversarial oracles) no reachable state has two threads inside the builder for one key, for any number of Gets, keys, schedules and configurations. Tied to failover.go / failover_go1.18.go by steered schedules under testing/synctest: every frontend call-out (before and after backend calls, builder entry/exit, logs, stats) is a parking point; model and implementation are compared step by step.',
+        "level_note": 'Trusted: Coq kernel; the hand-written model (its tie to the code is differential: ~260 steered schedules per quick run, 12x in thorough); the DRF-SC argument that step-granular interleavings cover real executions (DESIGN §2.2); synctest; the harness.',
     },
     "C14": {
         "tests": ["TestC14"],
         "design_ref": "DESIGN.md §3.14",
-        "level_text": "TODO",
-        "level_note": "TODO",
+        "level_text": 'Theorems C14_import, C14_only_registered, C14_truncated_prefix, C14_hash_set_determined / perm / idem / changes (Coq, no axioms; the hash laws hold for any fingerprint function). Correspondence: HTTPTransfer over an in-process transport (ok / types-hash mismatch / failure / body cut at random offsets), and the types hash measured in fresh processes for random registration orders, compared with the XOR model over measured singleton fingerprints.',
+        "level_note": 'Trusted: net/http plumbing is bypassed by an in-process RoundTripper; FNV and reflect-based fingerprints are measured, not modelled.',
     },
     "C13": {
         "tests": ["TestC13"],
         "design_ref": "DESIGN.md §3.13",
-        "level_text": "TODO",
-        "level_note": "TODO",
+        "level_text": 'Theorems C13_roundtrip (any source content, any walk order, any non-colliding target hash: same reads, sizes, counts, Walk content, and the result is again a well-formed source, so chains follow), C13_decode_fresh, C13_reused_variable_refuted (Coq, no axioms). Correspondence: random entry sets through real gob Dump/Restore for all family pairings, chained.',
+        "level_note": 'Trusted: encoding/gob is modelled by two rules (zero fields omitted; decode leaves absent fields untouched); the aliasing of a reused byte slice is not modelled (the harness compares keys byte-exactly).',
     },
     "C18": {
         "tests": ["TestC18"],
         "design_ref": "DESIGN.md §3.18",
-        "level_text": "TODO",
-        "level_note": "TODO",
+        "level_text": "Theorems C18_backend_totals / C18_backend_step (every backend operation's metric events match its accounting, any hash/config/sequence) and C18_failover_builds_counted / C18_failover_totals (at quiescence cache_build = builder invocations, cache_failed = failed builds, cache_refreshed = stale re-stores, under every interleaving) (Coq, no axioms). Correspondence: counting StatsTracker on backend sequences and on steered Failover workloads.",
+        "level_note": 'Trusted: as C07 and C01; metric names/labels as emitted through the StatsTracker interface.',
     },
     "C12": {
         "tests": ["TestC12"],
         "design_ref": "DESIGN.md §3.12",
-        "level_text": "TODO",
-        "level_note": "TODO",
+        "level_text": 'Theorems C12_rank (for any sort that returns a sorted permutation), C12_amount, C12_untouched, C12_count_target, C12_only_on_breach (Coq, no axioms). Correspondence: real cleanup path with CountSoftLimit / EvictionNeeded / never-exceeded memory limits, all strategies; rank is checked against the TRUE access history kept by the model, counts against exact rationals of the float fraction (within one entry + 2^-30).',
+        "level_note": 'Trusted: as C07; HeapInUse/SysMem breaches are not produced (only never-exceeded limits); EvictMostExpired ranks never-expiring entries first (DESIGN O1).',
     },
     "C11": {
         "tests": ["TestC11"],
         "design_ref": "DESIGN.md §3.11",
-        "level_text": "TODO",
-        "level_note": "TODO",
+        "level_text": 'Theorems C11_cycle_exact, C11_survivors, C11_cycles_only_remove (Coq, no axioms): a cleanup cycle removes exactly the entries with E != 0 and E < now - DeleteExpiredAfter (or nothing while UnlimitedTTL has seen no expiration); survivors survive any number of cycles. Correspondence: VerifCleanup and the real janitor goroutine driven by the fake clock, every cycle bracketed by Walks.',
+        "level_note": "Trusted: as C07; ExpireAll on an UnlimitedTTL cache that never saw a per-call TTL is outside C11's quantifier (DESIGN O7).",
     },
     "C10": {
         "tests": ["TestC10"],
         "design_ref": "DESIGN.md §3.10",
-        "level_text": "TODO",
-        "level_note": "TODO",
+        "level_text": "Theorem C10_bounds (Coq, no axioms): expiry = never iff unlimited and no context TTL; exactly t+T without jitter; within |T|J/2 (+ stated IEEE slack |T|/2^50 ns) and never collapsing to 'never' with jitter, for all T in Z; C10_read_threshold, C10_expired_at_is_walk_instant on the reference map. Correspondence is exact: fake clock to the ns, jitter draw predicted by a mirrored seeded math/rand and compared against the exact rational T*J*(r-1/2).",
+        "level_note": 'Trusted: the float rounding slack (two IEEE-754 roundings + truncation) is a stated bound, validated on every run against exact rationals, not derived from a float model.',
     },
     "C09": {
         "tests": ["TestC09"],
         "design_ref": "DESIGN.md §3.9",
-        "level_text": "TODO",
-        "level_note": "TODO",
+        "level_text": "Theorem C09_collision_costs_at_most_a_miss (Coq, no axioms): for EVERY hash function each keyed result is the reference result or ErrNotFound (simulation R1: every resident entry sits in its own key's slot and equals the reference entry). Correspondence: constructed xxhash64 collision pairs (verified with the real hash), exhaustive short sequences and random long ones with the caller's key buffer overwritten after every call; Failover part: steered Gets with buffer overwrite during background builds, every backend access must carry the Get's key.",
+        "level_note": 'Trusted: as C07 and C01; collision construction is checked against the real xxhash before use.',
     },
     "C07": {
         "tests": ["TestC07"],
         "design_ref": "DESIGN.md §3.7",
-        "level_text": "TODO",
-        "level_note": "TODO",
+        "level_text": 'Theorem C07_refines (Coq, no axioms): for every hash function, configuration and operation sequence whose keys do not collide, the hashed backend model returns exactly what the reference map with per-entry expiry returns (Walk up to order) and emits the same metric events; C07_syncmap: an injective hash (SyncMap) always qualifies; clause-by-clause corollaries on the reference map. Correspondence: random sequences on the three real backends on an exact fake clock, jitter predicted by a mirrored seeded math/rand.',
+        "level_note": 'Trusted: Coq kernel; hand-written Backend.v / Spec.v (tied by ~300 sequences per quick run); xxhash64 values as printed by the harness; map iteration order treated as arbitrary (Walk compared as a set).',
     },
     "C17": {
         "tests": ["TestC17"],
@@ -118,5 +118,5 @@ PROPS = {
 
 HOOK_COMMITS = ["6df94f9"]
 
-_later = "check not built yet in this round (work in progress; see DESIGN.md §7 build order)"
+_later = "check not built yet (work in progress at this commit; see DESIGN.md §7 build order)"
 NOT_APPLICABLE = {("C%02d" % i): _later for i in range(1, 19)}
